@@ -25,7 +25,10 @@ RULE = ("deterministic base histories of the real scheduler (lattice plug-in "
         "in-flight jobs must be re-issued first, the run must continue for "
         "25-40 steps without raising, and afterwards every replaced path must "
         "have exactly one data row and no live path one. A sample of crash "
-        "states is crashed a second time after the restart. Non-trivial = "
+        "states is crashed a second time after the restart. In addition the "
+        "tree right after EVERY restart-file write of long histories (60-110 "
+        "steps, 4-7 ensembles) is restarted and continued for 2-5 steps. "
+        "Non-trivial = "
         "crash state inside a step that accepted a path or deleted files; "
         "distinct = distinct (history, effect index, variant).")
 ASSUMPTIONS = [
@@ -37,7 +40,8 @@ ASSUMPTIONS = [
     "restart = fresh process emulated by resetting infretis' module/class "
     "level state (a sample is re-checked in a real fresh interpreter)",
 ]
-MUST_REACH = ["crash_state_probed", "torn_state_probed", "second_crash"]
+MUST_REACH = ["crash_state_probed", "torn_state_probed", "second_crash",
+              "boundary_state_probed"]
 JOB_TIMEOUT = 1700
 
 
@@ -70,7 +74,83 @@ def plan(tier, seed):
         jobs.append({"kind": "base", "spec": spec, "hashseed": 0,
                      "budget": 32 if tier == "quick" else 220,
                      "seed": rng.randrange(2 ** 31)})
+    # step-boundary states of long histories: the tree right after EVERY
+    # restart-file write (what a crash between two steps leaves), probed with
+    # a short continuation.  Cheap, so rare step kinds (a rejected move after
+    # a pick that displaced a path, ...) are reached as well.
+    nb = 16 if tier == "quick" else 160
+    for j in range(nb):
+        n = rng.randint(4, 7)
+        w = rng.randint(1, min(3, n - 1))
+        N = rng.randint(60, 110)
+        spec = {"n_intf": n, "workers": w, "steps": N,
+                "moves": ["sh"] + [rng.choice(["sh", "sh", "wf"])
+                                   for _ in range(n - 1)],
+                "seed": rng.randrange(2 ** 31), "policy": rng.choice(
+                    F.POLICIES), "adv_seed": rng.randrange(2 ** 31),
+                "maxlength": rng.choice([300, 40]), "wall": -2,
+                "delete_old": j % 2 == 1, "n_jumps": rng.choice([1, 2])}
+        if rng.random() < 0.4:
+            k = rng.randint(max(w, 4), N - 4)
+            spec["segments"] = [{"steps": N, "kill_after": k}, {"steps": N}]
+        jobs.append({"kind": "boundary", "spec": spec, "hashseed": 0,
+                     "seed": rng.randrange(2 ** 31)})
     return jobs
+
+
+class _Boundary:
+    """Copies the run directory after every restart-file write."""
+
+    def __init__(self, snapdir):
+        self.snapdir = snapdir
+        self.snaps = []
+
+    def after_write_toml(self, rig, state, out, *a, **kw):
+        d = os.path.join(self.snapdir, str(len(self.snaps)))
+        shutil.copytree(rig.cdir, d, symlinks=True)
+        self.snaps.append((d, int(state.cstep), rig.segment))
+
+
+def _boundary(job, scratch):
+    from vf.sched_case import run_case
+    from vf.crash_probe import probe
+    rng = random.Random(job["seed"])
+    spec = job["spec"]
+    res = {"n": 0, "sigs": [], "events": {}, "violations": [], "samples": [],
+           "reached": {}, "notes": []}
+
+    def ev(k, n=1):
+        res["events"][k] = res["events"].get(k, 0) + n
+    cdir = os.path.join(scratch, "bbase")
+    snapdir = os.path.join(scratch, "bsnaps")
+    os.makedirs(snapdir, exist_ok=True)
+    mon = _Boundary(snapdir)
+    rig, info = run_case(spec, cdir, [mon])
+    if rig.violations or any(o not in ("done", "killed")
+                             for o in info["outcomes"]):
+        for v in rig.violations:
+            res["violations"].append(dict(v, spec=spec))
+        res["notes"].append(f"base history outcomes {info['outcomes']}")
+        return res
+    ev("boundary_histories")
+    for (d, cstep, seg) in mon.snaps:
+        more = rng.randint(2, 5)
+        out = probe(d, more, policy="random", adv_seed=rng.randrange(10 ** 6))
+        res["n"] += 1
+        res["reached"]["boundary_state_probed"] = \
+            res["reached"].get("boundary_state_probed", 0) + 1
+        ev("boundary_states")
+        ev("boundary_stage_" + out["stage"])
+        if out["info"].get("locked"):
+            ev("boundary_states_with_jobs_in_flight")
+        res["sigs"].append(f"b{spec['seed']}-{cstep}-{seg}")
+        for pr in out["problems"]:
+            res["violations"].append({
+                "history": F.brief(spec), "cstep": cstep, "segment": seg,
+                "mech": pr["mech"] + "@step-boundary", "what": pr["what"],
+                "tb": pr.get("tb"), "restart_info": out.get("info")})
+        shutil.rmtree(d, ignore_errors=True)
+    return res
 
 
 def _subprocess_probe(cdir, more):
@@ -88,6 +168,8 @@ def _subprocess_probe(cdir, more):
 
 
 def work(job, scratch):
+    if job["kind"] == "boundary":
+        return _boundary(job, scratch)
     from vf.sched_case import run_case
     from vf.fsfault import Recorder, torn_variants
     from vf.crash_probe import probe
